@@ -18,6 +18,11 @@ package main
 //   brokerhttp seq <event;event;...>            -> one result per event, on a fresh broker and server, strictly one after the other
 //       P:<sid x>:<ptype x>:<nat x>   a proxy poll over TCP left waiting (it answers "ANS:"+offer when matched); result P=ok once registered
 //       R:<raw request x>             result R=<status>,<cors>,x<body (armor-decoded for /amp/client/)>  or R=noresponse
+//   brokerhttp duppoll <pending|matched|expired> <sid x> <nat x>
+//       the same /proxy request POSTed again over TCP (fresh broker and server) while the first poll with that session id is
+//       pending (two repeats) / has been handed a client's offer and that client still waits / has just been answered
+//       "no match"; every request is given 16 s from the moment it was sent
+//   -> polls=<status>:<match|nomatch|other|->:<ms>,...  client=<status>:<ms>|-   (status 0 = no complete response)
 
 import (
 	"bufio"
@@ -410,6 +415,128 @@ func vhSeq(args []string, metricsFile string) string {
 	return strings.Join(out, ";")
 }
 
+// one POST over a raw TCP connection; the response must be complete within 16 s
+func vhTimedPost(addr, path string, body []byte) (int, []byte, int64) {
+	start := time.Now()
+	conn, err := net.DialTimeout("tcp", addr, 5*time.Second)
+	if err != nil {
+		return 0, nil, time.Since(start).Milliseconds()
+	}
+	defer conn.Close()
+	conn.SetDeadline(start.Add(16 * time.Second))
+	fmt.Fprintf(conn, "POST %s HTTP/1.1\r\nHost: x\r\nContent-Length: %d\r\n\r\n", path, len(body))
+	conn.Write(body)
+	resp, err := http.ReadResponse(bufio.NewReader(conn), &http.Request{Method: "POST"})
+	if err != nil {
+		return 0, nil, time.Since(start).Milliseconds()
+	}
+	b, err := io.ReadAll(resp.Body)
+	resp.Body.Close()
+	if err != nil {
+		return 0, nil, time.Since(start).Milliseconds()
+	}
+	return resp.StatusCode, b, time.Since(start).Milliseconds()
+}
+
+func vhDupPoll(args []string) string {
+	if len(args) != 4 {
+		return "!badcase"
+	}
+	mode, sid, nat := args[1], string(vhHex(args[2])), string(vhHex(args[3]))
+	ctx := NewBrokerContext(log.New(io.Discard, "", 0))
+	go ctx.Broker()
+	srv := httptest.NewUnstartedServer(vhMux(ctx, ""))
+	srv.Config.ErrorLog = log.New(io.Discard, "", 0)
+	srv.Start()
+	// not closed: a poll left hanging would make Close wait for ever
+	addr := srv.Listener.Addr().String()
+	body, _ := messages.EncodeProxyPollRequestWithRelayPrefix(sid, "standalone", nat, 0, "")
+	var mu sync.Mutex
+	var wg sync.WaitGroup
+	polls := []string{}
+	slot := func() int { mu.Lock(); polls = append(polls, "0:-:-1"); n := len(polls) - 1; mu.Unlock(); return n }
+	firstDone := make(chan string, 1)
+	poll := func(n int, first bool) {
+		defer wg.Done()
+		st, b, ms := vhTimedPost(addr, "/proxy", body)
+		class := "-"
+		if st == 200 {
+			class = "other"
+			if offer, _, _, err := messages.DecodePollResponseWithRelayURL(b); err == nil {
+				if offer == "" {
+					class = "nomatch"
+				} else {
+					class = "match"
+				}
+			}
+		}
+		mu.Lock()
+		polls[n] = fmt.Sprintf("%d:%s:%d", st, class, ms)
+		mu.Unlock()
+		if first {
+			firstDone <- class
+		}
+	}
+	current := func() *Snowflake {
+		ctx.snowflakeLock.Lock()
+		defer ctx.snowflakeLock.Unlock()
+		return ctx.idToSnowflake[sid]
+	}
+	// wait (bounded) until the id map holds a record other than prev under the session id
+	waitNew := func(prev *Snowflake) *Snowflake {
+		for deadline := time.Now().Add(6 * time.Second); time.Now().Before(deadline); time.Sleep(500 * time.Microsecond) {
+			if cur := current(); cur != nil && cur != prev {
+				return cur
+			}
+		}
+		return current()
+	}
+	client := "-"
+	wg.Add(1)
+	go poll(slot(), true)
+	rec := waitNew(nil)
+	switch mode {
+	case "pending":
+		for k := 0; k < 2; k++ {
+			wg.Add(1)
+			go poll(slot(), false)
+			rec = waitNew(rec)
+		}
+	case "matched":
+		cnat := "unrestricted"
+		if nat == "unrestricted" {
+			cnat = "unknown"
+		}
+		req := messages.ClientPollRequest{Offer: "dup-offer", NAT: cnat, Fingerprint: "2B280B23E1107BB62ABFC40DDCC8824814F80A72"}
+		cb, _ := req.EncodeClientPollRequest()
+		wg.Add(1)
+		go func() {
+			defer wg.Done()
+			st, _, ms := vhTimedPost(addr, "/client", cb)
+			mu.Lock()
+			client = fmt.Sprintf("%d:%d", st, ms)
+			mu.Unlock()
+		}()
+		select {
+		case <-firstDone: // the first poll has been handed the offer; its client now waits for an answer that never comes
+		case <-time.After(12 * time.Second):
+		}
+		wg.Add(1)
+		go poll(slot(), false)
+	case "expired":
+		select {
+		case <-firstDone:
+		case <-time.After(16 * time.Second):
+		}
+		wg.Add(1)
+		go poll(slot(), false)
+	default:
+		return "!badcase"
+	}
+	wg.Wait()
+	return "polls=" + strings.Join(polls, ",") + " client=" + client
+}
+
 func min(a, b int) int {
 	if a < b {
 		return a
@@ -478,6 +605,8 @@ func TestVerifHttpDriver(t *testing.T) {
 				res[idx] = vhSeq(a, metricsFile)
 			case "twinenc":
 				res[idx] = vhTwinEnc(a)
+			case "duppoll":
+				res[idx] = vhDupPoll(a)
 			default:
 				res[idx] = vhOne(addr, i, a)
 			}
